@@ -341,6 +341,29 @@ def accessor(ctx, letters, nd):
     ctx.sample(sub, {"cube": "all 4096 words of length 6", "variants": list(variants) + ["float yxt", "float tyx"]})
 
 
+def attr_histories(ctx):
+    """autocorr() on one long-lived object whose nodata attribute is edited in place between calls, both layouts."""
+    import pandas as pd
+    import xarray as xr
+    from .. import histories
+    sub = "attr_histories"
+    n = 6
+    time = pd.date_range("2000-01-01", periods=n, freq="10D")
+    rows = [[3, 1, 4, 1, 5, 9], [0, 5, 0, 5, 2, 30], [-1, 2, 5, -1, 30, 1], [5, 5, 2, 9, 5, 1], [0, 0, 3, 8, 0, 2], [-1, -1, 0, 5, 0, 5]]
+    data = np.array(rows).astype("int16").reshape(2, 3, n)
+    for layout in ("yxt", "tyx"):
+        def make():
+            da = xr.DataArray(data.copy(), dims=("y", "x", "time"), coords={"time": time})
+            return da if layout == "yxt" else da.transpose("time", "y", "x")
+
+        def op(da):
+            return np.asarray(da.hdc.algo.autocorr().values).copy()
+
+        h = histories.explore(make, "nodata", [histories.ABSENT, -1, 0, 5], op, lambda a, b: np.array_equal(a, b, equal_nan=True), 3, ctx, sub, f"autocorr[{layout}]")
+        ctx.note_add("attr_histories", h)
+    ctx.sample(sub, {"attr": "nodata", "values": ["<absent>", -1, 0, 5], "depth": 3, "pixels": rows})
+
+
 def run(ctx):
     o = _ops()
     letters = letters_for(ctx.seed)
@@ -358,6 +381,7 @@ def run(ctx):
     plateaus(ctx, -9999)
     fractional_floats(ctx)
     accessor(ctx, letters, nd)
+    attr_histories(ctx)
 
 
 def replay(sub, case, p):
@@ -370,6 +394,8 @@ def replay(sub, case, p):
             g2 = impl_int(np.where(valid, vals * a + b, case["nd"]).astype("int16"), case["nd"])
             if abs(g2[0] - got[0]) > TOL:
                 p.violation(sub, {}, case, f"affine map changes the value: {got[0]} vs {g2[0]}")
+    elif case["kind"] == "attr_history":
+        attr_histories(p)
     elif case["kind"] == "frac":
         p.thorough = lambda: False
         fractional_floats(p)
